@@ -9,8 +9,8 @@ border / padding.
 
 Pango's metrics (height and baseline of a line of text at a font size, the ex ratio of
 `character_ratio`) are inputs (`VStyle.textHeight`, `textBaseline`, `ex`): assumed component.
-Mirrors the code, quirk included: `translate_subtree` moves the children of a `top` / `bottom`
-aligned inline box but not its grand-children (unless the child is itself `top` / `bottom`).
+Mirrors the code: `translate_subtree` moves a `top` / `bottom` aligned inline box with its whole
+subtree, except the nested `top` / `bottom` boxes, which are subtrees of their own (fix 5152049).
 No Mathlib: linked into the driver.
 -/
 import WpModel.Model.Wire
@@ -205,22 +205,24 @@ def extentOf : VBox → Ext
   | .box y h mt mb b st kids =>
     (extentKids kids).add (0 - b) (0 - b + (VBox.box y h mt mb b st kids).marginHeight)
 
+/-- the `dy` of `line_box_verticality` for a `top` / `bottom` subtree: `min_y - sub_min_y` (`top`) or
+`max_y - sub_max_y` (`bottom`); its extent is recomputed from its placed boxes -/
+def ownDy (minY maxY : Rat) (b : VBox) : Rat :=
+  match extentOf b with
+  | some (mx, mn) => if b.va = .top then minY - mn else maxY - mx
+  | none => 0
+
 mutual
-/-- `translate_subtree` of every `top` / `bottom` subtree, all at once: `carried` is what the
-ancestors' translations add to this box -/
+/-- `translate_subtree` of every `top` / `bottom` subtree, all at once (since fix 5152049: the whole
+subtree is moved, except the nested `top` / `bottom` subtrees, which are aligned on their own).
+`carried` is the `dy` of the nearest enclosing `top` / `bottom` subtree (0 outside any). -/
 def shift (minY maxY : Rat) (carried : Rat) : VBox → VBox
-  | .text y h mt mb b va => .text (y + carried) h mt mb b va
+  | .text y h mt mb b va =>
+    let dy := if va.isTopBottom then ownDy minY maxY (.text y h mt mb b va) else carried
+    .text (y + dy) h mt mb b va
   | .box y h mt mb b st kids =>
-    if st.va.isTopBottom then
-      -- this subtree's own translation; its extent is recomputed from its placed children
-      let ext := extentOf (.box y h mt mb b st kids)
-      let dy : Rat := match ext with
-        | some (mx, mn) => if st.va = .top then minY - mn else maxY - mx
-        | none => 0
-      .box (y + carried + dy) h mt mb b st (shiftL minY maxY (carried + dy) kids)
-    else
-      -- grand-children of a translated subtree are not moved
-      .box (y + carried) h mt mb b st (shiftL minY maxY 0 kids)
+    let dy := if st.va.isTopBottom then ownDy minY maxY (.box y h mt mb b st kids) else carried
+    .box (y + dy) h mt mb b st (shiftL minY maxY dy kids)
 def shiftL (minY maxY : Rat) (carried : Rat) : List VBox → List VBox
   | [] => []
   | k :: ks => shift minY maxY carried k :: shiftL minY maxY carried ks
